@@ -27,6 +27,8 @@ where
     where
         T: 'a,
     {
+        #[cfg(feature = "iggy_verif")]
+        crate::verif::yield_point("lock_read").await;
         self.0.read().await
     }
 
@@ -34,6 +36,8 @@ where
     where
         T: 'a,
     {
+        #[cfg(feature = "iggy_verif")]
+        crate::verif::yield_point("lock_write").await;
         self.0.write().await
     }
 }
